@@ -258,7 +258,7 @@ def classify_double(node, Q, d, consts, helpers=None):
     return classify_double_out(out, Q, d, node.name)
 
 
-def polys_by_evaluation(world, f, nargs, Q):
+def polys_by_evaluation(world, f, nargs, Q, terms_only=False):
     """The coordinates returned by the formula function f on symbolic projective inputs, as
     polynomials - obtained with the forking evaluator (f and the arithmetic helpers it calls
     inlined), so any spelling the evaluator understands (comprehensions over literal tuples,
@@ -284,6 +284,8 @@ def polys_by_evaluation(world, f, nargs, Q):
     outs = e2.run(f, pts, [], world.static.fork())
     if len(outs) != 1 or outs[0].kind != "return" or not isinstance(outs[0].value, TupleV) or len(outs[0].value.items) != 4:
         raise AnalysisError("%s: not one returning path with a 4-tuple on symbolic points (%d outcomes)" % (f.node.name, len(outs)))
+    if terms_only:
+        return tuple(outs[0].value.items)
     n0 = len(atoms)
     ps = tuple(term_poly(t, Q, atoms) for t in outs[0].value.items)
     if len(atoms) != n0:
@@ -339,8 +341,13 @@ def is_ladder_function(world, ev, f):
         return False
     forms = formula_functions(world, ev)
     doubles = {q for q, v in forms.items() if v.get("kind") == "double"}
-    return bool(set(ladder_info(world, ev, f)) & doubles) and \
-        sum(1 for n in ast.walk(f.node) if isinstance(n, (ast.For, ast.While))) == 1
+    if not set(ladder_info(world, ev, f)) & doubles:
+        return False
+    # one loop applies the doubling formula; at most one further loop (an inline digit peel) beside it
+    loops = [n for n in ast.walk(f.node) if isinstance(n, (ast.For, ast.While))]
+    doubling = [l for l in loops if any(isinstance(c, ast.Call) and isinstance(c.func, ast.Name) and
+                                        getattr(world.static_lookup(f.mod, c.func.id), "qual", None) in doubles for c in ast.walk(l))]
+    return len(doubling) == 1 and len(loops) <= 2
 
 
 _DIG_CACHE = {}
@@ -572,6 +579,89 @@ def identity_test_ok(world, ev, f):
             r = (False, "true-path conditions are %s" % sorted(show(t, maxdepth=4) + "=" + str(p) for t, p in conds))
     _ID_CACHE[key] = r
     return r
+
+
+def identity_test_raw_reads(world, ev, f):
+    """For an identity predicate accepted by identity_test_ok: {coordinate index (0=X, 1=Y, 2=Z): uses} for the
+    coordinates it compares *without* reducing them mod Q first; a use is 'zero' (compared with 0) or 'eq'
+    (compared with another coordinate).  `X == 0` on an unreduced X misses the identity whenever X is a
+    non-zero multiple of Q, so such a predicate is only right on suitably normalised coordinates."""
+    if not identity_test_ok(world, ev, f)[0]:
+        return None
+    X, Y, Z, T = (Sym(n, "int") for n in "XYZT")
+    conds = _truth_paths(world, f, TupleV([X, Y, Z, T]))[0]
+    raw = {}
+    for (t, pol) in conds:
+        if not (isinstance(t, App) and t.f in ("Eq", "NotEq") and len(t.args) == 2):
+            continue
+        for i, v in enumerate((X, Y, Z)):
+            if any(a == v for a in t.args):
+                other = [a for a in t.args if a != v]
+                raw.setdefault(i, set()).add("zero" if other == [Const(0)] else "eq")
+    return raw
+
+
+def _reduced(t, Q):
+    """t is in [0, Q) by its form"""
+    return (is_app(t, "Mod") and t.args[1] == Const(Q)) or \
+        (isinstance(t, Const) and isinstance(t.v, int) and not isinstance(t.v, bool) and 0 <= t.v < Q)
+
+
+def _zero_exact(t, Q):
+    """t == 0 exactly when t = 0 (mod Q), by its form: a value in [0, Q), a difference of two such values, or a
+    product of such terms (Q is prime: a product vanishes mod Q only if a factor does)"""
+    if _reduced(t, Q):
+        return True
+    if is_app(t, "Sub") and len(t.args) == 2 and all(_reduced(a, Q) for a in t.args):
+        return True                                    # |a - b| < Q
+    if is_app(t, "USub") and len(t.args) == 1:
+        return _zero_exact(t.args[0], Q)
+    return is_app(t, "Mult") and all(_zero_exact(a, Q) for a in t.args)
+
+
+def identity_repr_obligations(world, ev, t):
+    """The representation invariant behind one use  t = fn:<identity predicate>(coords)  of an identity test that
+    compares a coordinate unreduced: the formula function that produced the tested tuple (for a ladder result:
+    every addition/doubling formula the ladder uses - its last step is one of them, n = 0 gives the constant
+    identity) must return that coordinate normalised: in [0, Q) where it is compared with another coordinate,
+    zero exactly when it is 0 mod Q where it is compared with 0.   -> [(instance, ok, detail, site)]"""
+    if not (isinstance(t, App) and t.f.startswith("fn:") and len(t.args) == 1):
+        return []
+    f = func_by_qual(world, t.f[3:])
+    raw = identity_test_raw_reads(world, ev, f) if f is not None else None
+    if not raw:
+        return []
+    qn, Q = field_prime(world, ev)
+    forms = formula_functions(world, ev)
+    kinds = ("add-complete", "add-dedicated", "double")
+    c = unproj(t.args[0])
+    producers = None
+    if isinstance(c, App) and c.f.startswith("fn:"):
+        if forms.get(c.f[3:], {}).get("kind") in kinds:
+            producers = {c.f[3:]}
+        else:
+            lc = ladder_call(world, ev, c)
+            if lc is not None:
+                producers = {q for q in lc["uses"] if forms.get(q, {}).get("kind") in kinds}
+                if isinstance(lc["n"], Const) and isinstance(lc["n"].v, int) and lc["n"].v % 2 == 1:
+                    # an odd scalar: the last step of a double-and-add ladder (either direction) is an addition
+                    producers = {q for q in producers if forms[q]["kind"] != "double"}
+    if not producers:
+        return []          # the tested tuple is not the result of a formula function (e.g. a decoded point)
+    out = []
+    names = "XYZT"
+    for q in sorted(producers):
+        g = func_by_qual(world, q)
+        terms = polys_by_evaluation(world, g, len(g.node.args.args), Q, terms_only=True)
+        bad = [names[i] for i in sorted(raw)
+               if ("eq" in raw[i] and not _reduced(terms[i], Q)) or ("zero" in raw[i] and not _zero_exact(terms[i], Q))]
+        out.append(("%s <- %s" % (f.node.name, g.node.name), not bad,
+                    "%s compares %s unreduced; %s returns %s" % (f.node.name, "/".join(names[i] for i in sorted(raw)), g.node.name,
+                                                                   "a value that is 0 only when it is 0 mod Q (a residue, a difference of two residues, or a product of such)" if not bad else
+                                                                   "%s unnormalised: a result that is the identity with %s a non-zero multiple of Q is not recognised"
+                                                                   % ("/".join(bad), "/".join(bad))),
+                    (g.mod.relpath, g.node.lineno, g.node.name)))
+    return out
 
 
 def oncurve_test_ok(world, ev, f):
